@@ -1756,3 +1756,6 @@ TABLE["C14"] += [
       (MW, "    def _group_methods(self, methods):", "    def _group_methods(self, methods, seen=[]):\n        seen.extend(m.name for m in methods)")),
     N("immutable-default-value", (MW, "    def _group_methods(self, methods):", "    def _group_methods(self, methods, skip=()):")),
 ]
+TABLE["C15"] += [
+    B("script-drops-unqualified-ignore-entries", {"X9"}, ("scripts/pybind_wrap.py", "        ignore_classes=args.ignore,", "        ignore_classes=[n for n in args.ignore if '::' in n],")),
+]
